@@ -242,6 +242,7 @@ Fixpoint lookup_text {A} (k : text) (l : list (text * A)) : option A :=
 
 (* kinds of userid decoders recognised by the facts extractor:
    int | lambda x: utf_8_decode(x)[0] | lambda x: utf_8_decode(b64decode(x))[0] | lambda x: b64decode(x) *)
-Inductive deckind := DInt | DUtf8 | DB64Utf8 | DB64.
+(* DUtf8Text: the repaired legacy 'unicode' entry -- the identity on str, UTF-8 decoding on bytes *)
+Inductive deckind := DInt | DUtf8 | DB64Utf8 | DB64 | DUtf8Text.
 (* kinds of userid encoders: str | lambda x: b64encode(utf_8_encode(x)[0]) | lambda x: b64encode(x) *)
 Inductive enckind := EStr | EB64Utf8 | EB64.
